@@ -1,4 +1,4 @@
-import BiotiteModel.Model.C18Sdf
+import BiotiteModel.Model.C18Lazy
 /-!
 Line-protocol driver for C18.  File lines inside one protocol line are separated by TAB
 (the model only speaks about printable ASCII, so TAB never occurs inside a line).
@@ -11,6 +11,7 @@ Line-protocol driver for C18.  File lines inside one protocol line are separated
   MS⇥K n name ri re⇥Vline⇥Vline…⇥K …                                 Metadata(...).serialize()
   MD⇥line⇥…                                                           Metadata.deserialize
   SS⇥line⇥…                                                           SDFile.deserialize + SDRecord.deserialize
+  SE⇥line⇥…⇥#OPS⇥R⇥old⇥new⇥D⇥name⇥H⇥name⇥field⇥value…   parsed SDFile, edit history, serialize()
   SF⇥line⇥…                                                           SDFile.deserialize, every record: header, get_structure(), metadata
   HS⇥name⇥initials⇥program⇥time⇥dim⇥scaling⇥energy⇥registry⇥comments   Header.serialize
   HD⇥l0⇥l1⇥l2                                                         Header.deserialize
@@ -146,6 +147,27 @@ def showTime : Option (Nat × Nat × Nat × Nat × Nat) → String
   | none => "-"
   | some (a, b, c, d, e) => s!"{a},{b},{c},{d},{e}"
 
+def setHeaderField (field : String) (v : Line) (h : Header) : Option Header :=
+  match field with
+  | "comments" => some { h with comments := v }
+  | "program" => some { h with program := v }
+  | "initials" => some { h with initials := v }
+  | "energy" => some { h with energy := v }
+  | "registry_number" => some { h with registry := v }
+  | "dimensions" => some { h with dimensions := v }
+  | "scaling_factors" => some { h with scaling := v }
+  | _ => none
+
+/-- `R old new`, `D name`, `H name field value` (one protocol field each) -/
+partial def parseEdits : List String → Option (List EditOp)
+  | [] => some []
+  | "R" :: o :: n :: rest => (parseEdits rest).map fun ops => .rename o.toList n.toList :: ops
+  | "D" :: k :: rest => (parseEdits rest).map fun ops => .del k.toList :: ops
+  | "H" :: k :: fld :: v :: rest =>
+    if (setHeaderField fld v.toList ⟨[], [], [], none, [], [], [], [], []⟩).isNone then none else
+    (parseEdits rest).map fun ops => .editHeader k.toList (fun h => (setHeaderField fld v.toList h).getD h) :: ops
+  | _ => none
+
 def step (_ : Unit) (line : String) : Unit × String :=
   let fields := line.splitOn "\t"
   let out : String :=
@@ -179,6 +201,18 @@ def step (_ : Unit) (line : String) : Unit × String :=
            ("N" ++ str r.1) :: (p.1.map fun l => "H" ++ str l) ++ (p.2.1.map fun l => "C" ++ str l)
              ++ (p.2.2.map fun l => "M" ++ str l))
        | .error e => showErr e)
+    | "SE" :: rest =>
+      let ls := rest.takeWhile (· != "#OPS")
+      (match parseEdits ((rest.dropWhile (· != "#OPS")).drop 1), splitRecords (ls.map String.toList) with
+       | some ops, .ok recs =>
+         let r := lazyRun (lazyOfRecords recs) ops
+         (match r.2.find? (· != .unit) with
+          | some (.err e) => showErr e
+          | _ => match LFile.lines r.1 with
+            | .ok out => "ok " ++ tabJoin (out.map str)
+            | .error e => showErr e)
+       | none, _ => "bad-op"
+       | _, .error e => showErr e)
     | "SF" :: ls =>
       (match sdfDeserialize (ls.map String.toList) with
        | .ok recs =>
